@@ -360,3 +360,37 @@ Lemma purge_idle_no_lock :
   snd (run_ops k_prop true purge_never rl0 purge_hist1)
    = [Some EvalFail; Some EvalFail; Some EvalFail; Some EvalFail; None; Some EvalFail; Some RefusedLockout].
 Proof. vm_compute. auto. Qed.
+
+(* ---- concurrent guesses of one user: whatever order the requests take the mutex in ---- *)
+Theorem gate_any_order k esc (thr : nat -> Z * verdict) : forall order s, 0 <= min_secs k ->
+  forall a b ia ib oa ob, (a < b)%nat ->
+  nth_error order a = Some ia -> nth_error (snd (gate_run k esc thr s order)) a = Some oa ->
+  nth_error order b = Some ib -> nth_error (snd (gate_run k esc thr s order)) b = Some ob ->
+  evaluated oa = true -> evaluated ob = true ->
+  fst (thr ia) + min_secs k * SEC <= fst (thr ib).
+Proof.
+  intros order s Hk a b ia ib oa ob Hab Ha Hoa Hb Hob Ea Eb. unfold gate_run in *.
+  apply (spacing k esc (map thr order) s Hk a b (fst (thr ia)) (snd (thr ia)) oa (fst (thr ib)) (snd (thr ib)) ob Hab).
+  - rewrite nth_error_map, Ha. cbn [option_map]. destruct (thr ia); reflexivity.
+  - exact Hoa.
+  - rewrite nth_error_map, Hb. cbn [option_map]. destruct (thr ib); reflexivity.
+  - exact Hob.
+  - apply evaluated_passes; exact Ea.
+  - apply evaluated_passes; exact Eb.
+Qed.
+
+(* the split gate: two wrong guesses in flight at the same instant are both evaluated, and the
+   second write-back overwrites the first: two evaluated failures, counter 1 *)
+Definition split_thr (i : nat) : Z * verdict := (1000 * SEC, NoMatch).
+Definition split_sched : list gstep := [GRead 0; GRead 1; GFinish 0; GFinish 1].
+Lemma split_gate_two_evaluated :
+  let r := split_run k_prop true split_thr rl0 split_sched in
+  g_outs r = [(0%nat, EvalFail); (1%nat, EvalFail)] /\ fail_count (g_entry r) = 1 /\
+  snd (gate_run k_prop true split_thr rl0 [0%nat; 1%nat]) = [EvalFail; RefusedSpacing].
+Proof. vm_compute. auto. Qed.
+
+Lemma split_gate_refuted : exists thr sched,
+  let r := split_run k_prop true thr rl0 sched in
+  g_outs r = [(0%nat, EvalFail); (1%nat, EvalFail)] /\ fst (thr 0%nat) = fst (thr 1%nat) /\
+  fail_count (g_entry r) = 1.
+Proof. exists split_thr, split_sched. vm_compute. auto. Qed.
